@@ -45,7 +45,7 @@ def demo_desc():
     }
 
 
-RENAMES = {"project": "show", "type": "kind", "leaf": "fmt", "version": "ver", "state": "frame", "node": "obj"}
+RENAMES = {"project": "show", "type": "kind", "leaf": "fmt", "version": "ver", "state": "status", "node": "obj"}
 LEVEL_RENAMES = {"assettype": "cat", "asset": "thing", "task": "step", "sequence": "seq", "shot": "cut"}
 BASE_RENAMES = {"asset": ["elem", "e", "ELEMS"], "shot": ["scene", "c", "SCENES"]}
 
